@@ -106,7 +106,9 @@ func (p *PD) issue() (int64, int64, error) {
 	if p.net != nil && p.net.Killed() {
 		return 0, 0, errors.WithStack(context.Canceled)
 	}
+	p.u.asyncGuard.RLock()
 	ph, lg := p.u.Clock.Next()
+	p.u.asyncGuard.RUnlock()
 	ts := oracle.ComposeTS(ph, lg)
 	p.lastTS.Store(ts)
 	p.u.Log.addTSO(TSOEvent{Client: p.id, TS: ts})
